@@ -14,7 +14,7 @@ The normal form identifies programs that differ only by behaviour-preserving rew
     for side-effect free arguments, locals renamed apart);
   * `x = c ? a : b;`  ≡  `if (c) x = a; else x = b;`  (canonical: conditional expression);
   * `for (i; c; s) B`  ≡  `i; while (c) { B s; }` (no `continue` in B);
-  * `i++;` ≡ `++i;` ≡ `i += 1;` ≡ `i = i + 1;` as statements (same for `--`);
+  * `i++;` ≡ `++i;` ≡ `i += 1;` ≡ `i = i + 1;` as statements (same for `--`); `x = x OP e;` ≡ `x OP= e;`;
   * `switch` without fall-through ≡ if / else-if chain on `==`;
   * `if (c) A else B` ≡ `if (!c) B else A`; `!(a < b)` ≡ `a >= b` …; `!x` ≡ `x == 0` ≡ `x == NULL`; `x != 0` ≡ `x`
     in condition position; `a > b` ≡ `b < a`, `a >= b` ≡ `b <= a`;
@@ -763,9 +763,13 @@ class Normalizer:
         return walk(e, self.fold)
 
     # ---- types of simple expressions (for redundant casts)
+    FIELD_TYPES = {"tv_sec": "long", "tv_nsec": "long", "tv_usec": "long", "d_ino": "U64", "st_size": "long", "argc": "int", "envc": "int"}
+
     def type_of(self, e, env):
         if e[0] == "id":
             return env.get(e[1])
+        if e[0] == "mem":
+            return self.FIELD_TYPES.get(e[3])
         if e[0] == "cast":
             return e[1]
         if e[0] == "call" and e[1] == ("id", "strlen"):
@@ -784,7 +788,19 @@ class Normalizer:
                     return x[2]
             return x
 
+        def widening(x):
+            """(T)e where T represents every value of e's type"""
+            to = x[1].replace("const", "").strip()
+            it = (self.type_of(x[2], env) or "").replace("const", "").strip()
+            if to not in RANK or it not in RANK or "*" in to:
+                return False
+            if to in UNSIGNED:
+                return it in UNSIGNED and RANK[to] >= RANK[it]
+            return RANK[to] >= RANK[it] if it not in UNSIGNED else RANK[to] > RANK[it]
+
         def f(x):
+            if x[0] == "cast" and widening(x):
+                return x[2]
             if x[0] == "bin" and x[1] in ("<", "<=", "==", "!=", "+", "-", "*", "/", "%", "&", "|", "^"):
                 ta = (self.type_of(x[2], env) or "").replace("const", "").strip()
                 tb = (self.type_of(x[3], env) or "").replace("const", "").strip()
@@ -821,8 +837,18 @@ class Normalizer:
             out += self.stmt(s, env)
         return self.merge_ifs(out)
 
+    def unsigned_zero(self, e, env):
+        """for an unsigned x:  x <= 0 ≡ x == 0,  0 < x ≡ x != 0"""
+        def f(x):
+            if x[0] == "bin" and x[1] == "<=" and x[3] == ("num", 0) and (self.type_of(x[2], env) or "").replace("const", "").strip() in UNSIGNED:
+                return ("bin", "==", x[2], ("num", 0))
+            if x[0] == "bin" and x[1] == "<" and x[2] == ("num", 0) and (self.type_of(x[3], env) or "").replace("const", "").strip() in UNSIGNED:
+                return ("bin", "!=", x[3], ("num", 0))
+            return x
+        return walk(e, f)
+
     def cond_expr(self, e, env):
-        return self.truth(self.drop_casts(self.expr(e), env))
+        return self.truth(self.unsigned_zero(self.drop_casts(self.expr(e), env), env))
 
     def stmt(self, s, env):
         k = s[0]
@@ -906,8 +932,11 @@ class Normalizer:
 
     def assign_stmt(self, e, env):
         op, lhs, rhs = e[1], e[2], e[3]
-        if op == "=" and rhs[0] == "bin" and rhs[1] in ("+", "-") and rhs[2] == lhs and rhs[3] == ("num", 1):
-            return [("expr", ("asg", "+=" if rhs[1] == "+" else "-=", lhs, ("num", 1)))]
+        # x = x OP e  ≡  x OP= e   (also x = e + x for the commutative operators)
+        if op == "=" and rhs[0] == "bin" and rhs[1] in ("+", "-", "*", "|", "&", "^") and rhs[2] == lhs and not has_effect(lhs):
+            return [("expr", ("asg", rhs[1] + "=", lhs, rhs[3]))]
+        if op == "=" and rhs[0] == "bin" and rhs[1] in ("+", "*", "|", "&", "^") and rhs[3] == lhs and not has_effect(lhs):
+            return [("expr", ("asg", rhs[1] + "=", lhs, rhs[2]))]
         if op == "=" and rhs[0] == "call":
             sub = self.inline_expr(rhs)
             if sub is not None:
